@@ -1,4 +1,5 @@
 import BM.Props.C08
+import BM.Props.OracleModelC08
 import BM.Props.SrcPin.C08
 /- Top module of property C08: its theorems (BM.Props.C08) and the statement of which units of /repo's
    source its model and proofs were written against (BM/Props/SrcPin/C08.lean, re-checked against the
